@@ -91,6 +91,14 @@ impl SplitPacket {
         if let Some(decompressed) = self.decompressed {
             let decompressed_size = decompressed.0 as usize;
 
+            // The size is provided by the server: don't let it (or a crafted stream) make us
+            // buffer an unreasonable amount of data
+            if decompressed_size > MAX_DECOMPRESSED_SIZE {
+                return Err(Decompress.context(format!(
+                    "Decompressed size {decompressed_size} is larger than the maximum of {MAX_DECOMPRESSED_SIZE}"
+                )));
+            }
+
             // Decompress the whole stream (reading one byte past the declared size to detect
             // oversized data without buffering it)
             let mut decompressed_payload = Vec::new();
@@ -122,6 +130,10 @@ pub(crate) struct ValveProtocol {
 }
 
 static PACKET_SIZE: usize = 6144;
+
+/// Maximum accepted size of a decompressed split response (far above what 255 fragments can
+/// reasonably carry).
+const MAX_DECOMPRESSED_SIZE: usize = 4 * 1024 * 1024;
 
 impl ValveProtocol {
     pub fn new(address: &SocketAddr, timeout_settings: Option<TimeoutSettings>) -> GDResult<Self> {
